@@ -1166,6 +1166,8 @@ var fixedSpecs = []struct{ importer, spec string }{
 	{"src/main.js", "pkg-cond/package.json"}, {"src/main.js", "pkg-cond/lib/a.js"},
 	{"node_modules/pkg-cond/lib/a.js", "pkg-cond/feature"}, {"node_modules/pkg-cond/lib/a.js", "#int"}, {"node_modules/pkg-cond/lib/a.js", "#dep"},
 	{"node_modules/pkg-cond/lib/a.js", "#sub/a"}, {"node_modules/pkg-cond/lib/a.js", "#missing"},
+	// a bare target that names a builtin: import resolves node:fs, require FAILS in Node 20 (ERR_INVALID_URL_SCHEME)
+	{"node_modules/pkg-cond/lib/a.js", "#fsb"}, {"node_modules/pkg-cond/lib/a.js", "#fsp/x"},
 	{"src/main.js", "pkg-main"}, {"src/main.js", "pkg-main/lib/other"}, {"src/main.js", "pkg-idx"}, {"src/main.js", "pkg-idx/lib"}, {"src/main.js", "pkg-dirmain"},
 	{"src/main.js", "pkg-mod"}, {"src/main.js", "pkg-mod/a"}, {"src/main.js", "pkg-mod/internal/x"}, {"src/main.js", "pkg-mod/lib/a.js"},
 	{"src/main.js", "dep-pkg/package.json"}, {"node_modules/pkg-a/index.js", "dep-pkg/package.json"}, {"src/main.js", "only-nested/package.json"},
@@ -1288,7 +1290,7 @@ func genTree(r *Rng, root string, odd int) *tree {
 	t.addPkg(r, "linked-src/pkg-l/node_modules/dep-of-l", "dep-of-l", odd)
 	t.links["node_modules/pkg-l"] = "../linked-src/pkg-l"
 	// fixed packages: the boundary grid of the glue stream (same in every tree)
-	t.addFixed("node_modules/pkg-cond", `{"name":"pkg-cond","exports":{".":{"import":"./m.mjs","require":"./c.cjs"},"./feature":{"node":{"import":"./lib/f.mjs","require":"./lib/f.cjs"},"default":"./lib/f.js"},"./sub/*":{"require":"./lib/*.js","default":"./src/*.js"},"./only-import":{"import":"./m.mjs"},"./package.json":"./package.json"},"imports":{"#int":{"require":"./c.cjs","import":"./m.mjs"},"#dep":"dep-pkg","#sub/*":"./lib/*.js"}}`,
+	t.addFixed("node_modules/pkg-cond", `{"name":"pkg-cond","exports":{".":{"import":"./m.mjs","require":"./c.cjs"},"./feature":{"node":{"import":"./lib/f.mjs","require":"./lib/f.cjs"},"default":"./lib/f.js"},"./sub/*":{"require":"./lib/*.js","default":"./src/*.js"},"./only-import":{"import":"./m.mjs"},"./package.json":"./package.json"},"imports":{"#int":{"require":"./c.cjs","import":"./m.mjs"},"#dep":"dep-pkg","#sub/*":"./lib/*.js","#fsb":"fs","#fsp/*":"fs"}}`,
 		"m.mjs", "c.cjs", "lib/f.mjs", "lib/f.cjs", "lib/f.js", "lib/a.js", "src/a.js", "index.js")
 	t.addFixed("node_modules/pkg-main", `{"name":"pkg-main","main":"lib/main"}`, "lib/main.js", "index.js", "lib/other.js", "lib/other.json")
 	t.addFixed("node_modules/pkg-idx", `{"name":"pkg-idx"}`, "index.js", "lib/index.js", "lib/a.js")
